@@ -466,6 +466,10 @@ class C19(Prop):
         mk("split-wait-misuse", ["wread", "wend", "wbegin 4", "post 1 1 1", "wbegin 4", "wend", "wait 4", "wbegin 4", "wait 4",
                                  "wend", "wread", "wread", "wend", "wait 4"])
         mk("ring-full", ["post 1 5 %d" % i for i in range(1026)] + ["wait 64"] * 17 + ["post 1 6 6", "wait 64"])
+        # more completions than MAX_EVENTS (64, the size of the epoll_wait array) in ONE wait: the copy-out loop is
+        # bounded by the caller's max_events, not by the clamp
+        mk("wait-beyond-max-events", ["post %d 9 %d" % (1 + i % 3, i) for i in range(150)] + ["wait 200", "wait 200",
+                                      "post 1 9 1", "wait 65", "wait 65"])
         # confirmed defect 2 (repaired): timed join before the thread stored RUNNING
         mk("join-before-running", ["wnew 1 hold", "wstate 1", "wjoin 1 50", "wrelease 1", "wstop 1", "wstep 1", "wjoin 1 50",
                                    "wstate 1", "wdestroy 1"])
@@ -531,7 +535,7 @@ class C19(Prop):
         mk("poll-more-than-max", ["#poll", "post 1 1 1", "post 2 2 2", "post 1 3 3", "wait 1", "wait 1", "wait 1", "wait 1"])
         rt_names = ("posts-pile-up", "console-key-twice", "wakeup-only", "zero-key-zero-data", "wide-key-data",
                     "wakeup-in-window", "post-before-doorbell-read", "post-after-doorbell-read", "post-in-both-windows",
-                    "split-wait-misuse", "ring-full", "mt-post")
+                    "split-wait-misuse", "ring-full", "wait-beyond-max-events", "mt-post")
         for c in list(B):
             if c.id[2:] in rt_names:
                 mk("poll-" + c.id[2:], ["#poll"] + c.lines)
